@@ -48,7 +48,7 @@ Theorem C13_nearer_exit_preferred : forall cf k ops n ns id m,
 Proof. exact nearer_exit_preferred. Qed.
 Print Assumptions C13_nearer_exit_preferred.
 
-(** The code BEFORE commit a182c23 (Model/FloodPreFix.v) violated the property: on a chain 0-1-2-3 agent 0's CIDR was recorded with metric 1 at 1, 2 and 3 hops. *)
+(** The code BEFORE commit b3d7519 (Model/FloodPreFix.v) violated the property: on a chain 0-1-2-3 agent 0's CIDR was recorded with metric 1 at 1, 2 and 3 hops. *)
 Theorem C13_refuted_pre_fix :
   exists ops, map (fun n => map (fun e => (e_metric e, e_path e))
                                (filter (fun e => kind_eqb (e_kind e) KCidr) (entries_pre [] 4 ops n))) [1; 2; 3]
